@@ -325,6 +325,8 @@ def run(prog, rep):
     if not n_t:
         rep.ok("TRUTH-4", "no truthiness test on %s" % "/".join(sorted(FALSY_SET_ATTRIBUTES)), "rules test `is None`", vmod.path)
 
+    name_cache_rule(prog, rep, "CACHE-3")
+
     # ----------------------------------------------------------------- ORD-2
     cardinality_validation_rule(prog, rep)
     from .c19 import reset1_rule
@@ -334,6 +336,77 @@ def run(prog, rep):
                     "run_validation reaches the Sections and Properties of a document through itersections / iterproperties: an object the "
                     "traversal skips is never validated")
     rep.assume("the documented rules table (odmlsa/tables.py VALIDATION_RULES) transcribes the validation docstrings")
+
+
+def name_cache_rule(prog, rep, rule="CACHE-3"):
+    """a child list that remembers names must hear about renames"""
+    rep.rule(rule, "SmartList answers `children[<name>]` from the current names of its elements: an instance attribute of SmartList whose stored "
+                   "value is computed from element names is a cache, and then every name setter of the model classes (the only writers of _name "
+                   "after construction) writes that attribute or calls a SmartList method that does - or every return that reads the cache is "
+                   "guarded by a comparison of the found element's .name with the key. Otherwise a look-up after `child.name = ...` finds the "
+                   "renamed object under its old name (a dangling dependency goes unreported)")
+    cls = prog.cls("SmartList")
+    stores = {}      # attribute -> [(function, statement, value)]
+    for f in cls.methods.values():
+        if not f.params:
+            continue
+        me = f.params[0]
+        for n in walk_no_nested(f.node):
+            tgts = n.targets if isinstance(n, ast.Assign) else [n.target] if isinstance(n, (ast.AugAssign, ast.AnnAssign)) else []
+            for t in tgts:
+                base = t.value if isinstance(t, ast.Subscript) else t
+                if isinstance(base, ast.Attribute) and unparse(base.value) == me:
+                    stores.setdefault(base.attr, []).append((f, n, getattr(n, "value", None), t))
+    writers = {}
+    for a, lst in stores.items():
+        for f, _, _, _ in lst:
+            writers.setdefault(a, set()).add(f.name)
+    setters = [f for f in prog.all_functions() if f.kind == "setter" and f.name == "name" and f.cls is not None
+               and any(isinstance(n, ast.Assign) and any(isinstance(t, ast.Attribute) and t.attr == "_name" for t in n.targets) for n in walk_no_nested(f.node))]
+    rep.floor(rule, len(setters), 2, "name setters that store _name")
+    n_cache = 0
+    for a, lst in sorted(stores.items()):
+        derived = None
+        for f, n, v, t in lst:
+            x = Expander(f, inline=prog)
+            txts = [x.text(v)] if v is not None else []
+            if isinstance(t, ast.Subscript):
+                txts.append(x.text(t.slice))
+            if any(re.search(r"\.name\b|\._name\b", tx) for tx in txts):
+                derived = (f, n)
+        if derived is None:
+            continue
+        n_cache += 1
+        deaf = []
+        for sf in setters:
+            hears = False
+            for n in walk_no_nested(sf.node):
+                if isinstance(n, (ast.Assign, ast.AugAssign, ast.Delete)) and re.search(r"\.%s\b" % re.escape(a), unparse(n).split("=")[0]):
+                    hears = True
+                if isinstance(n, ast.Call) and isinstance(n.func, ast.Attribute) and (n.func.attr in writers.get(a, ()) or
+                                                                                       (n.func.attr in ("clear", "pop", "update") and unparse(n.func.value).endswith("." + a))):
+                    hears = True
+            if not hears:
+                deaf.append(sf.short)
+        unguarded = []
+        for f in cls.methods.values():
+            g = None
+            for n in walk_no_nested(f.node):
+                if isinstance(n, ast.Return) and n.value is not None:
+                    x = Expander(f, inline=prog)
+                    if re.search(r"\b%s\.%s\b" % (re.escape(f.params[0]), re.escape(a)), x.text(n.value)):
+                        g = g or build_cfg(f)
+                        from ..dataflow import node_of_ast
+                        ats = atoms_at(g, node_of_ast(g, n.value))
+                        if not any(pol and re.search(r"\.name == ", t0) for t0, pol, _ in ats):
+                            unguarded.append((f, n))
+        bad = bool(deaf) and bool(unguarded)
+        rep.check(not bad, rule, "SmartList.%s (from names, built in %s)" % (a, derived[0].short), "renames reach the cache",
+                  "SmartList.%s is computed from the names of the elements (%s) and `%s` answers from it, but %s do(es) not touch it: after a "
+                  "rename the old name still finds the object" % (a, where(derived[0], derived[1]), unparse(unguarded[0][1])[:60] if unguarded else "",
+                                                               ", ".join(deaf)), where(derived[0], derived[1]),
+                  witness="look a Property up by name, rename it, look the old name up again: found")
+    rep.note("%s: SmartList stores the attributes %s; %d of them computed from element names" % (rule, sorted(stores), n_cache))
 
 
 def dup1_rule(prog, rep):
